@@ -30,7 +30,7 @@ def generate_latest(registry):
                 escape_metric_name(mname), _escape(metric.documentation)))
             output.append(f'# TYPE {escape_metric_name(mname)} {metric.type}\n')
             if metric.unit:
-                output.append(f'# UNIT {escape_metric_name(mname)} {metric.unit}\n')
+                output.append(f'# UNIT {escape_metric_name(mname)} {_escape(metric.unit)}\n')
             for s in metric.samples:
                 if not _is_valid_legacy_metric_name(s.name):
                     labelstr = escape_metric_name(s.name)
